@@ -4,6 +4,7 @@
    Model: Shared/PP.v (istep: the two stacks of preprocess_file; rstep: frame-stack reference),
    Shared/CondExpr.v; tie: harness/props/c08.py. *)
 From Coq Require Import ZArith.
+From FV Require C08.Expand.
 From FV Require Import Base.Str Shared.CondExpr Shared.PP C08.Model C08.Proofs.
 
 (* For every well-formed directive sequence (any nesting depth, any length), every initial macro
@@ -58,3 +59,30 @@ Example C08_nonvacuous :
   i_tab (irun 1 (iinit [(A, Some 1%Z)]) l) = [(A, Some 1%Z); (B, Some 2%Z)].
 Proof. cbv zeta. repeat split; vm_compute; reflexivity. Qed.
 Print Assumptions C08_nonvacuous.
+
+(* Uses of macros are replaced by their bodies character for character: for every classification of characters into word
+   and non-word characters, every table and every line written as words and separators (words: non-empty runs of word
+   characters, never two in a row), the substitution scan yields the line with exactly the words found in the table
+   replaced by their values -- every one of them, nothing else, no part of a longer word.  The table is one macro for an
+   object-like macro, the parameter/argument pairs for the body of a function-like one (simultaneous substitution). *)
+Theorem macro_uses_replaced_character_for_character : forall isw t ts,
+  Expand.wf_toks isw false ts = true -> Expand.expand isw t (Expand.render ts) = Expand.expected t ts.
+Proof. exact Expand.expand_spec. Qed.
+Print Assumptions macro_uses_replaced_character_for_character.
+
+(* a line that does not spell the macro name as a word of its own is not changed *)
+Theorem line_without_macro_use_unchanged : forall isw k v ts,
+  Expand.wf_toks isw false ts = true ->
+  forallb (fun x => match x with Expand.W w => negb (str_eqb k w) | Expand.S _ => true end) ts = true ->
+  Expand.expand isw [(k, v)] (Expand.render ts) = Expand.render ts.
+Proof. exact Expand.expand_untouched. Qed.
+Print Assumptions line_without_macro_use_unchanged.
+
+Example macro_expansion_nonvacuous :
+  let ts := [Expand.W [121]; Expand.S 61; Expand.W [77; 88]; Expand.S 43; Expand.W [77; 88; 95; 122]; Expand.S 32;
+             Expand.W [120; 77; 88]; Expand.S 40; Expand.W [77; 88]; Expand.S 41]%N in
+  Expand.wf_toks Expand.ascii_word false ts = true /\
+  Expand.expand Expand.ascii_word [([77; 88], [40; 49; 43; 50; 41])]%N (Expand.render ts)
+  = [121; 61; 40; 49; 43; 50; 41; 43; 77; 88; 95; 122; 32; 120; 77; 88; 40; 40; 49; 43; 50; 41; 41]%N.
+Proof. exact Expand.expand_nonvacuous. Qed.
+Print Assumptions macro_expansion_nonvacuous.
